@@ -40,4 +40,9 @@ CHECKS = {
     design_ref='DESIGN.md section 2, C19',
     note='Range constraints are enforced by PostgreSQL at execution time and are out of reach; object INSERT / filtered RESET yield no static operations and are injected as ADD/REM operations, as the server does with the backend reply.',
     technique='stateful property-based testing against a three-scope reference model, plus JSON / CONFIGURE-text round trips and exhaustive scalar grids'),
+ 'C01': dict(
+    text='Texts for all five grammar entry points (fragment, block, SDL document, migration body, extension-package body) from three generators: the ~1 400 snippets of the upstream syntax suites, every statement of edb/lib and every tests/schemas/*.esdl document; a text grammar covering all binary/unary/postfix operators with random explicit parenthesisation and same-operator chains, every literal kind, quoted identifiers, clauses, shapes, DML, FOR/WITH/GROUP, embedded in DDL/SDL/migration/CONFIGURE templates; and generated expressions spliced into corpus statements by AST span. Each accepted text is printed in up to four printer modes, re-parsed with the repository lexer+LR driver, compared field by field (span excluded; five documented spelling equivalences) and printed again for byte-identical idempotence. Failures are bucketed by innermost differing AST field so one defect does not hide the next.',
+    design_ref='DESIGN.md section 2, C01',
+    note='LR tables come from the harness LR generator over the repository grammar (validated by the upstream syntax suites). 7 genuine printer defects remain as known findings; 15 were repaired by fix: commits.',
+    technique='property-based testing: print/re-parse round trip with AST equality and print idempotence over corpus, grammar-generated and spliced texts'),
 }
